@@ -427,6 +427,27 @@ func (c *Ctx) derivedFieldsFollow(r *Result, rule, typeKey string) {
 			}
 		}
 	}
+	// a field that remembers a POSITION in a slice field (bt.lookupIndex = i, with bt.records[i] read in the same function)
+	// depends on the arrangement of that slice: it is a cache of it as well
+	for fn, sts := range storesByFn {
+		for _, b := range sts {
+			if b.Val == nil || !isIntType(b.Val.Type()) {
+				continue
+			}
+			if _, isC := b.Val.(*ssa.Const); isC {
+				continue
+			}
+			instrs(fn, func(in ssa.Instruction) {
+				ia, ok := in.(*ssa.IndexAddr)
+				if !ok || stripConv(ia.Index) != stripConv(b.Val) {
+					return
+				}
+				if k, _ := fieldLoadKey(ia.X); strings.HasPrefix(k, typeKey+".") && k != b.Key {
+					pairs[pair{k, b.Key}] = c.Name(fn)
+				}
+			})
+		}
+	}
 	n := 0
 	var keys []pair
 	for p := range pairs {
@@ -450,8 +471,14 @@ func (c *Ctx) derivedFieldsFollow(r *Result, rule, typeKey string) {
 					has2 = true
 				}
 			}
-			if !has1 {
+			if !has1 || c.underConstruction(fn) {
 				continue
+			}
+			if !has2 {
+				// refreshed through a helper of the type
+				if _, ok := c.TransitiveFieldStores(fn)[p.f2]; ok {
+					has2 = true
+				}
 			}
 			n++
 			r.Check(has2, rule, c.Name(fn)+"#"+lastSeg(p.f2)+"-follows-"+lastSeg(p.f1), c.InstrPos(at), lastSeg(p.f2)+" is computed from "+lastSeg(p.f1)+" in "+pairs[p]+"; a function that changes "+lastSeg(p.f1)+" must refresh it (otherwise the cached value describes the old "+lastSeg(p.f1)+")")
